@@ -19,6 +19,9 @@ import (
 type Resp struct {
 	Body []byte
 	Cut  int
+	// IDDelta is added to the correlation id echoed in the response (0 = the request's id; anything else is a framing
+	// error of the broker: a response nobody asked for).
+	IDDelta int32
 }
 
 // Req is one request seen by the broker.
@@ -120,6 +123,29 @@ func Frame(id int32, body []byte) []byte {
 func (b *Broker) serve() {
 	defer close(b.done)
 	defer b.srv.Close()
+	// responses are written by a second goroutine so that the broker keeps reading requests while a response waits
+	// for the client to read it (net.Pipe has no buffer; a real socket has one)
+	type outFrame struct {
+		f   []byte
+		cut bool
+	}
+	wq := make(chan outFrame, 256)
+	defer close(wq)
+	go func() {
+		for o := range wq {
+			b.srv.SetWriteDeadline(time.Now().Add(10 * time.Second))
+			n, err := b.srv.Write(o.f)
+			b.mu.Lock()
+			b.written += n
+			b.mu.Unlock()
+			if err != nil || o.cut {
+				b.srv.Close()
+				for range wq {
+				}
+				return
+			}
+		}
+	}()
 	var hdr [4]byte
 	for {
 		if _, err := io.ReadFull(b.srv, hdr[:]); err != nil {
@@ -150,7 +176,7 @@ func (b *Broker) serve() {
 			}
 			resp = Resp{Body: ApiVersionsBody(0, b.versions), Cut: -1}
 		}
-		f := Frame(r.ID, resp.Body)
+		f := Frame(r.ID+resp.IDDelta, resp.Body)
 		b.mu.Lock()
 		if b.hold > 0 {
 			b.pending = append(b.pending, f)
@@ -170,12 +196,14 @@ func (b *Broker) serve() {
 		if cut {
 			f = f[:resp.Cut]
 		}
-		b.srv.SetWriteDeadline(time.Now().Add(10 * time.Second))
-		n, err := b.srv.Write(f)
-		b.mu.Lock()
-		b.written += n
-		b.mu.Unlock()
-		if err != nil || cut {
+		wq <- outFrame{f, cut}
+		if cut {
+			// the connection is dropped by the writer once the prefix is out; nothing more is read
+			for i := 0; i < 2000; i++ {
+				if _, err := b.srv.Read(hdr[:1]); err != nil {
+					break
+				}
+			}
 			return
 		}
 	}
